@@ -111,7 +111,7 @@ def gen_cases(rng, tier):
                          "value": ocpgen.rnd(rng, 0.3, 3.0, 3) if key == "T" else ocpgen.rnd(rng, -2, 2, 3)},
                         {"op": "sample"}]
                 pos = rng.randint(0, len(ops))
-                ops = [o for o in ops[:pos] if o["op"] != "method"] + scen + ops[pos:]
+                ops = ops[:pos] + scen + ops[pos:]
         if not any(o["op"] in QUERIES for o in ops):
             ops.insert(rng.randint(0, len(ops)), {"op": "sample"})
         ops.append({"op": rng.choice(["sample", "solve"])})
